@@ -82,7 +82,26 @@ def check_montgomery_result_length(ctx, res, config="all"):
     if b is None:
         res.fail(Finding("R11-anchor-lost", "montgomery", "function not found", file="src/biguint/monty.rs", line=0))
         return
-    n_param = 5
+    # n: the value the 2n-digit accumulator is sized from (a parameter, or a field of the reducer struct copied into a local)
+    n_param = None
+    for i, t in b.calls():
+        if callee_name(t) == "resize" and i in b.live_blocks() and len(t["args"]) >= 2 and t["args"][1]["k"] != "const":
+            l_ = _copy_root(b, t["args"][1]["place"]["local"])
+            for d in b.defs().get(l_, []):
+                cand = []
+                if d[0] == "assign" and d[3]["rv"]["k"] == "binop":
+                    cand.append(d[3]["rv"])
+                if d[0] == "assign" and d[3]["rv"]["k"] == "use" and core.op_place(d[3]["rv"]["op"]):
+                    d2 = b.defs().get(core.op_place(d[3]["rv"]["op"])["local"], [])
+                    if d2 and d2[0][0] == "assign" and d2[0][3]["rv"]["k"] == "binop":
+                        cand.append(d2[0][3]["rv"])
+                for rv in cand:
+                    if rv["op"].startswith("Mul"):
+                        for o, o2 in ((rv["a"], rv["b"]), (rv["b"], rv["a"])):
+                            if o2["k"] == "const" and core.op_const(o2) == 2 and o["k"] != "const":
+                                n_param = _copy_root(b, o["place"]["local"])
+    if n_param is None:
+        n_param = 5
     stores = []
     for i, si, s in b.stmts():
         if s["k"] == "assign" and s["place"]["proj"] and s["place"]["proj"][-1].get("name") == "data" and i in b.live_blocks():
@@ -152,8 +171,12 @@ def check_montgomery_operand_lengths(ctx, res, config="all"):
     if b is None:
         res.fail(Finding("R11-anchor-lost", "monty_modpow", "function not found", file="src/biguint/monty.rs", line=0))
         return
+    # a private constructor that packs (m, n0inv, len(m)) into a struct is looked through
+    b = core.inline_private(facts, b, keep=("montgomery",))
     live = b.live_blocks()
     M = 3  # parameter m
+    mont = facts.body("biguint::monty::montgomery")
+    big_params = [k for k in range(1, (mont.arg_count if mont else 0) + 1) if mont.local_ty(k).replace("'_ ", "") in ("&biguint::BigUint",)] if mont else [1, 2, 3]
     # n-values: locals whose copy root is `len(&(*m).data)`
     nroots = set()
     for i, t in b.calls():
@@ -162,8 +185,41 @@ def check_montgomery_operand_lengths(ctx, res, config="all"):
             if base and base[0] == M and base[1] == ("data",):
                 nroots.add(t["dest"]["local"])
 
-    def is_n(o):
-        return o["k"] != "const" and not o["place"]["proj"] and _copy_root(b, o["place"]["local"]) in nroots
+    def field_source(pl, depth=0):
+        """operand stored into field `pl.proj` of the struct local `pl.local` (followed through whole-struct moves)"""
+        l = pl["local"]
+        for _ in range(8):
+            ds = b.defs().get(l, [])
+            if len(ds) != 1 or ds[0][0] != "assign":
+                return None
+            rv = ds[0][3]["rv"]
+            if rv["k"] == "use" and rv["op"]["k"] != "const" and not rv["op"]["place"]["proj"]:
+                l = rv["op"]["place"]["local"]
+                continue
+            if rv["k"] == "aggregate" and rv.get("fields"):
+                nm = [e.get("name") for e in pl["proj"] if e["k"] == "field"]
+                if len(nm) == 1 and nm[0] in rv["fields"]:
+                    return rv["ops"][rv["fields"].index(nm[0])]
+            return None
+        return None
+
+    def is_n(o, depth=0):
+        if o["k"] == "const" or depth > 4:
+            return False
+        pl = o["place"]
+        fproj = [e for e in pl["proj"] if e["k"] == "field"]
+        if fproj:
+            base_l = _base(b, pl["local"])[0] if [e for e in pl["proj"] if e["k"] == "deref"] else pl["local"]
+            src = field_source({"local": base_l, "proj": fproj})
+            return src is not None and is_n(src, depth + 1)
+        l = _copy_root(b, pl["local"])
+        if l in nroots:
+            return True
+        # a copy of a struct field (`let n = mr.num_words`)
+        ds = b.defs().get(l, [])
+        if len(ds) == 1 and ds[0][0] == "assign" and ds[0][3]["rv"]["k"] == "use" and ds[0][3]["rv"]["op"]["k"] != "const" and ds[0][3]["rv"]["op"]["place"]["proj"]:
+            return is_n(ds[0][3]["rv"]["op"], depth + 1)
+        return False
 
     def is_m(o):
         l = op_local(o)
@@ -321,7 +377,7 @@ def check_montgomery_operand_lengths(ctx, res, config="all"):
         if ce == "biguint::monty::montgomery":
             if report:
                 ncalls += 1
-                for k in (0, 1):
+                for k in [k_ - 1 for k_ in big_params if k_ - 1 < len(args) and not is_m(args[k_ - 1])]:
                     sa = state_of_operand(st, args[k])
                     if not EQ <= sa:
                         key = "arg%d@line%s" % (k + 1, t["span"]["line"])
@@ -334,7 +390,7 @@ def check_montgomery_operand_lengths(ctx, res, config="all"):
                         else:
                             have = "nothing" if not sa else ("length <= n" if LE in sa else "length >= n")
                             problems.append((what, k + 1, t["span"]["line"], have))
-                if not is_n(args[4]) or not is_m(args[2]):
+                if len(args) == 5 and (not is_n(args[4]) or not is_m(args[2])):
                     undecided.append(("modulus / n arguments", t["span"]["line"]))
             if d is not None:
                 st = set_state(st, d, EQ)
